@@ -60,6 +60,7 @@ var c04Queries = []string{
 	`query($no:Boolean = false, $yes:Boolean = true){ ... @include(if:$no) { ...G x3 } ... @skip(if:$yes) { ...G } ...H @skip(if:$no) x1 } fragment G on Query { x2 leafy { sNN s } } fragment H on Query { x4 ... @include(if:$no) { ...G } }`,
 	`{ echo(i:1, s:"k") ... @skip(if:true) { x1 leafy { sNN } } ... @include(if:true) { x2 } a { ... on A @skip(if:true) { aOnly } ... on Node @include(if:true) { id } items(n:2) { n } } }`,
 	`{ nodes(n:3) { meta { s } ... on A { meta { i } } ... on C { meta { f sNN } } } a { ...M } c { ...M } b { ...M } } fragment M on Node { meta { s } ... on A { meta { i } } ... on C { meta { b } } }`,
+	`{ nodes(n:3) { id ... on U { __typename ... on A { aOnly } } ... on Solo { ... on B { bOnly } } } node(as:"C") { ... on U { __typename ... on A { name } } id } u { ... on Node { id ... on Solo { __typename } } } x1 }`,
 	`mutation { m1(v:1) { id nn { sNN } } s1(v:2) m2(v:3) { nodes(n:2) { id } } }`,
 	`mutation { deep { dNN { vNN } v } node(as:"B") { id ... on B { nn { s } } } s2(v:1) }`,
 }
@@ -92,11 +93,11 @@ func (c04) ID() string { return "C04" }
 
 // fault kinds applicable per position class
 var (
-	c04Any      = []string{FErr, FValErr, FPanicErr, FPanicStr, FPanicInt, FNil, FTypedNil, FThunk, FThunkErr, FThunkPanic, FThunkNil, FThunkBad, FThunkValErr, FForeignErr}
+	c04Any      = []string{FErr, FValErr, FPanicErr, FPanicStr, FPanicInt, FNil, FTypedNil, FThunk, FThunk2, FThunkErr, FThunkPanic, FThunkNil, FThunkBad, FThunkValErr, FForeignErr, FSentinelErr, FSharedErr}
 	c04Leaf     = []string{FWrongKind, FNaN, FBigInt, FBigIntStr, FBadEnum}
 	c04List     = []string{FWrongKind, FNotIter, FElemThunk}
 	c04LeafList = []string{FElemPanic}
-	c04Abs      = []string{FRTNil, FRTWrong, FRTPanic, FWrongKind}
+	c04Abs      = []string{FRTNil, FRTWrong, FRTOther, FRTPanic, FWrongKind}
 	c04IsType   = []string{FITFalse, FITPanic}
 	c04Stamp    = []string{FSerNil, FSerPanic}
 	deferredFK  = map[string]bool{FThunkErr: true, FThunkPanic: true, FThunkNil: true, FThunkBad: true, FThunkValErr: true}
@@ -168,7 +169,7 @@ func c04Analyse(q string) *c04Info {
 				// a list of abstract / isTypeOf-guarded objects: the type callbacks
 				// are consulted per element with the field's info
 				if c04AbsNames[named] {
-					kinds = append(kinds, FRTNil, FRTWrong, FRTPanic)
+					kinds = append(kinds, FRTNil, FRTWrong, FRTOther, FRTPanic)
 					kinds = append(kinds, c04IsType...)
 				} else if c04IsTypeNames[named] {
 					kinds = append(kinds, c04IsType...)
@@ -209,7 +210,7 @@ func (c04) EnumSize(tier string) int {
 
 func c04FaultKey(kind, path string) string {
 	switch kind {
-	case FRTNil, FRTWrong, FRTPanic:
+	case FRTNil, FRTWrong, FRTOther, FRTPanic:
 		return "RT@" + path
 	case FITFalse, FITPanic:
 		return "IT@" + path
@@ -253,6 +254,25 @@ func (p c04) Gen(seed uint64, enum int, tier string) json.RawMessage {
 		k := ks[r.Intn(len(ks))]
 		s.Faults[c04FaultKey(k, pos.Path)] = k
 	}
+	if r.Chance(20) {
+		// the same outcome at every index of a list (one batch failure seen by
+		// every element): all positions that differ only in list indices
+		var indexed []c04Pos
+		for _, pos := range ci.Positions {
+			if c04Shape(pos.Path) != pos.Path {
+				indexed = append(indexed, pos)
+			}
+		}
+		if len(indexed) > 0 {
+			pick := indexed[r.Intn(len(indexed))]
+			k := []string{FSharedErr, FSentinelErr, FErr, FPanicErr, FNil, FThunkErr}[r.Intn(6)]
+			for _, pos := range indexed {
+				if c04Shape(pos.Path) == c04Shape(pick.Path) {
+					s.Faults[c04FaultKey(k, pos.Path)] = k
+				}
+			}
+		}
+	}
 	s.AllThunk = r.Chance(10)
 	// sometimes a background of successful thunks under the faults
 	if r.Chance(25) {
@@ -263,6 +283,17 @@ func (p c04) Gen(seed uint64, enum int, tier string) json.RawMessage {
 		}
 	}
 	return mustJSON(s)
+}
+
+// c04Shape replaces the list indices of a path by "#".
+func c04Shape(p string) string {
+	segs := splitPath(p)
+	for i, sg := range segs {
+		if _, err := strconv.Atoi(sg); err == nil {
+			segs[i] = "#"
+		}
+	}
+	return strings.Join(segs, ".")
 }
 
 func (c04) Shrink(scn json.RawMessage) []json.RawMessage {
@@ -617,7 +648,7 @@ func (c04) Run(t TestingT, scn json.RawMessage, tape *Tape) *Outcome {
 		named := namedOf(typ)
 		hard, needErr, deferred := false, true, false
 		switch kind {
-		case FErr, FValErr, FPanicErr, FPanicStr, FPanicInt, FNotIter, FRTNil, FRTWrong, FRTPanic, FITFalse, FITPanic, FSerPanic, FForeignErr:
+		case FErr, FValErr, FPanicErr, FPanicStr, FPanicInt, FNotIter, FRTNil, FRTWrong, FRTOther, FRTPanic, FITFalse, FITPanic, FSerPanic, FForeignErr, FSentinelErr, FSharedErr:
 			hard = true
 		case "T:" + FErr, "T:" + FPanicErr, "T:" + FValErr:
 			hard, deferred = true, true
@@ -699,7 +730,7 @@ func (c04) Run(t TestingT, scn json.RawMessage, tape *Tape) *Outcome {
 			var thunks []string
 			for _, fa := range firedAt {
 				kind, path, _ := strings.Cut(fa, "@")
-				if kind == FThunk || deferredFK[kind] || kind == FElemThunk {
+				if kind == FThunk || kind == FThunk2 || deferredFK[kind] || kind == FElemThunk {
 					thunks = append(thunks, path)
 				}
 				if kind == FElemThunk {
@@ -754,7 +785,7 @@ func (c04) Run(t TestingT, scn json.RawMessage, tape *Tape) *Outcome {
 		var thunks []string
 		for _, fa := range firedAt {
 			kind, path, _ := strings.Cut(fa, "@")
-			if kind == FThunk || deferredFK[kind] || kind == FElemThunk {
+			if kind == FThunk || kind == FThunk2 || deferredFK[kind] || kind == FElemThunk {
 				thunks = append(thunks, path)
 			}
 		}
@@ -815,7 +846,7 @@ func (c04) Run(t TestingT, scn json.RawMessage, tape *Tape) *Outcome {
 func c04UnderDeferred(path string, firedAt []string) bool {
 	for _, fa := range firedAt {
 		kind, tp, _ := strings.Cut(fa, "@")
-		if (kind == FThunk || deferredFK[kind] || kind == FElemThunk) && isUnder(path, tp) {
+		if (kind == FThunk || kind == FThunk2 || deferredFK[kind] || kind == FElemThunk) && isUnder(path, tp) {
 			return true
 		}
 	}
